@@ -107,26 +107,27 @@ Qed.
 
 (** `<value>` of a single-valued positional: back in [ValueDone], index + 1, an argument was seen *)
 Lemma eng_pos_single tok a pos evaf :
-  possible_subcommand pc tok evaf = None -> plain_tok tok -> get_pos pc pos = Some a -> a_is_multiple a = false ->
+  possible_subcommand pc tok evaf = None -> plain_tok tok -> get_pos pc pos = Some a -> check_terminator a tok = false ->
+  a_is_multiple a = false ->
   shadow_step tok cur pos false ValueDone evaf = SNext cur (pos + 1) false ValueDone true.
 Proof.
-  intros Hns Hpl Hg Hm. destruct (eng_plain_lex tok Hpl) as [He [Hl Hs]].
+  intros Hns Hpl Hg Hct Hm. destruct (eng_plain_lex tok Hpl) as [He [Hl Hs]].
   assert (Hin : In a (c_args pc)) by (apply (UnparseProofs.get_pos_in pc pos a Hg)).
   unfold shadow_step. cbn [negb]. rewrite (eng_not_sub tok _ evaf Hns).
   rewrite He, opt_allows_hyphen_vd, Hl, Hs.
-  unfold parse_positional. rewrite find_pos_el, Hg.
+  unfold parse_positional. rewrite find_pos_el, Hg, is_value_terminator_check, Hct. cbn [negb andb].
   pose proof (single_num_args a Hin Hm) as Hn. unfold eng_num_args in Hn. rewrite Hn. reflexivity.
 Qed.
 
 (** the first value of a multi-valued positional: [Pos pos 1], same index *)
 Lemma eng_pos_first tok a pos evaf :
-  no_sub pc tok -> plain_tok tok -> get_pos pc pos = Some a -> 1 < eng_num_args a ->
+  no_sub pc tok -> plain_tok tok -> get_pos pc pos = Some a -> check_terminator a tok = false -> 1 < eng_num_args a ->
   shadow_step tok cur pos false ValueDone evaf = SNext cur pos false (Pos pos 1) true.
 Proof.
-  intros Hns Hpl Hg Hn. destruct (eng_plain_lex tok Hpl) as [He [Hl Hs]].
+  intros Hns Hpl Hg Hct Hn. destruct (eng_plain_lex tok Hpl) as [He [Hl Hs]].
   unfold shadow_step. cbn [negb]. rewrite (eng_no_sub pc cur tok _ Hrel Hns).
   rewrite He, opt_allows_hyphen_vd, Hl, Hs.
-  unfold parse_positional. rewrite find_pos_el, Hg.
+  unfold parse_positional. rewrite find_pos_el, Hg, is_value_terminator_check, Hct. cbn [negb andb].
   apply N.ltb_lt in Hn. unfold eng_num_args in Hn. rewrite Hn. reflexivity.
 Qed.
 
@@ -137,10 +138,10 @@ Proof. destruct arg; [reflexivity|]. cbn [opt_allows_hyphen]. apply andb_false_r
     [subcommand_precedence_over_arg] *)
 Lemma eng_pos_more tok a pos k evaf :
   (is_set s_sub_precedence pc = true -> no_sub pc tok) -> plain_tok tok -> get_pos pc pos = Some a ->
-  k + 1 < eng_num_args a ->
+  check_terminator a tok = false -> k + 1 < eng_num_args a ->
   shadow_step tok cur pos false (Pos pos k) evaf = SNext cur pos false (Pos pos (k + 1)) true.
 Proof.
-  intros Hns Hpl Hg Hn. destruct (eng_plain_lex tok Hpl) as [He [Hl Hs]].
+  intros Hns Hpl Hg Hct Hn. destruct (eng_plain_lex tok Hpl) as [He [Hl Hs]].
   unfold shadow_step. cbn [negb]. rewrite orb_false_r.
   assert (Hsub : (if (is_set s_sub_precedence cur && negb (is_set s_args_negate_subs cur && evaf)) && utf8_valid tok
                   then find_subcommand cur tok else None) = None).
@@ -148,7 +149,7 @@ Proof.
     destruct (is_set s_sub_precedence pc) eqn:Ep; [|reflexivity].
     exact (eng_no_sub pc cur tok _ Hrel (Hns eq_refl)). }
   rewrite Hsub, He, opt_allows_hyphen_pos, Hl, Hs.
-  unfold parse_positional. rewrite find_pos_el, Hg, N.eqb_refl.
+  unfold parse_positional. rewrite find_pos_el, Hg, is_value_terminator_check, Hct, N.eqb_refl. cbn [negb andb].
   apply N.ltb_lt in Hn. unfold eng_num_args in Hn. rewrite Hn. reflexivity.
 Qed.
 
@@ -162,8 +163,8 @@ Proof.
   - rewrite shadow_run_app, (eng_item18 pc cur L toks F pos evaf Hi), IH.
     pose proof (item18_nonempty pc toks F Hi) as Hne. destruct toks as [|t0 ts]; [discriminate|].
     cbn [app is_nil negb orb]. rewrite orb_true_r. reflexivity.
-  - cbn [shadow_run]. destruct Ht as [_ [Hg _]].
-    rewrite (eng_pos_single tok a pos evaf Hns Hpl Hg Hm), IH. cbn [is_nil negb orb]. rewrite orb_true_r. reflexivity.
+  - cbn [shadow_run]. destruct Ht as [_ [Hg [_ [_ Hct]]]].
+    rewrite (eng_pos_single tok a pos evaf Hns Hpl Hg Hct Hm), IH. cbn [is_nil negb orb]. rewrite orb_true_r. reflexivity.
 Qed.
 
 Lemma eng_multi_more a pos : forall vs k,
@@ -175,8 +176,8 @@ Proof.
   induction vs as [|v t IH]; intros k Hprec Hall Hn.
   - cbn [shadow_run length N.of_nat]. rewrite N.add_0_r. reflexivity.
   - inversion Hall as [|v0 t0 [Hpl Ht] Hall']; subst. cbn [shadow_run].
-    destruct Ht as [_ [Hg _]].
-    rewrite (eng_pos_more v a pos k true); [|intros Ep; specialize (Hprec Ep); inversion Hprec; assumption|exact Hpl|exact Hg|].
+    destruct Ht as [_ [Hg [_ [_ Hct]]]].
+    rewrite (eng_pos_more v a pos k true); [|intros Ep; specialize (Hprec Ep); inversion Hprec; assumption|exact Hpl|exact Hg|exact Hct|].
     2:{ cbn [length] in Hn. lia. }
     rewrite IH.
     + replace (k + 1 + N.of_nat (length t)) with (k + N.of_nat (length (v :: t))) by (cbn [length]; lia). reflexivity.
@@ -192,8 +193,8 @@ Theorem eng_multi a pos v1 vs evaf : multi_vals pc pos a v1 vs ->
   shadow_run (v1 :: vs) cur pos false ValueDone evaf = SNext cur pos false (Pos pos (N.of_nat (length (v1 :: vs)))) true.
 Proof.
   intros [Hm [Hns [Hprec Hall]]] Hn. inversion Hall as [|v0 t0 [Hpl Ht] Hall']; subst.
-  cbn [shadow_run]. destruct Ht as [_ [Hg _]].
-  rewrite (eng_pos_first v1 a pos evaf Hns Hpl Hg) by (cbn [length] in Hn; lia).
+  cbn [shadow_run]. destruct Ht as [_ [Hg [_ [_ Hct]]]].
+  rewrite (eng_pos_first v1 a pos evaf Hns Hpl Hg Hct) by (cbn [length] in Hn; lia).
   rewrite (eng_multi_more a pos vs 1 Hprec Hall') by (cbn [length] in Hn; lia).
   replace (1 + N.of_nat (length vs)) with (N.of_nat (length (v1 :: vs))) by (cbn [length]; lia). reflexivity.
 Qed.
@@ -834,7 +835,7 @@ Proof. intros Hs Hn. unfold match_arg_error. cbn [andb]. rewrite Hs, Hn. reflexi
 Lemma eng_plain_positional pc cur tok pos evaf : elevel pc cur ->
   possible_subcommand pc tok evaf = None -> plain_tok tok ->
   shadow_step tok cur pos false ValueDone evaf =
-  match parse_positional cur pos false ValueDone with
+  match parse_positional cur pos false ValueDone tok with
   | Some (st, pi) => SNext cur pi false st true
   | None => SPanic 673
   end.
@@ -860,7 +861,7 @@ Theorem args_conflict_levels pc cur pre F pos tok sc0 :
        parse_loop pc (tok :: rest) (lsV 1 false) st = ROk (LSub n' false false st rest)) /\
   (pre <> [] -> plain_tok tok ->
      shadow_run (pre ++ [tok]) cur 1 false ValueDone false =
-       match parse_positional cur pos false ValueDone with
+       match parse_positional cur pos false ValueDone tok with
        | Some (st, pi) => SNext cur pi false st true
        | None => SPanic 673
        end /\
@@ -894,7 +895,7 @@ Proof.
     split.
     + rewrite shadow_run_app, (eng_pitems pc cur L false 1 pre F pos Hp). cbn [shadow_run orb]. rewrite Hvaf.
       rewrite (eng_plain_positional pc cur tok pos true L (negate_no_sub pc tok Hneg) Hpl).
-      destruct (parse_positional cur pos false ValueDone) as [[st0 pi0]|]; reflexivity.
+      destruct (parse_positional cur pos false ValueDone tok) as [[st0 pi0]|]; reflexivity.
     + intros rest st Hfs.
       assert (Hloop : parse_loop pc (pre ++ tok :: rest) (lsV 1 false) st =
                       (do st' <- F st; parse_loop pc (tok :: rest) (lsV pos true) st')).
